@@ -18,10 +18,11 @@ def shapes(nmax_in, nmax_out):
     return v
 cb = [{'NIN': 1, 'NOUT': 1, 'SSLEN': l} for l in (1, 2, 3, 100, 101)]
 # non-witness size boundary: 4+1+(36+5+L+4)+1+(8+1)+4 = L+64 -> L = 999936 gives exactly 1,000,000 bytes (accepted), +1 rejected
+wit = [{'NIN': 1, 'NOUT': 1, 'SSLEN': 999936, 'WITLEN': 1}, {'NIN': 2, 'NOUT': 2, 'WITLEN': 3}]   # witness bytes never count towards the 1,000,000-byte rule
 big = [{'NIN': 1, 'NOUT': 1, 'SSLEN': 999936}, {'NIN': 1, 'NOUT': 1, 'SSLEN': 999937, 'OVERSIZE': 1}, {'NIN': 2, 'NOUT': 1, 'SSLEN': 999895}, {'NIN': 2, 'NOUT': 1, 'SSLEN': 999896, 'OVERSIZE': 1}]
 HARNESSES = [
-    H('checktx', 'checktx.cpp', 'h_checktx', link=LINK, variants=shapes(2, 2) + cb + big[:2], tvariants=shapes(3, 3) + cb + big + [{'NIN': 4, 'NOUT': 1}, {'NIN': 1, 'NOUT': 4}],
+    H('checktx', 'checktx.cpp', 'h_checktx', link=LINK, variants=shapes(2, 2) + cb + big[:2] + wit, tvariants=shapes(3, 3) + cb + big + wit + [{'NIN': 4, 'NOUT': 1}, {'NIN': 1, 'NOUT': 4}],
       functions=FN, stubs=ST, unwind=12, memunwind=104, noop=[ERASE], unwindset=lambda v: '%s.0:%d' % (GETPOS, v.get('NIN', 2) + 2), timeout=600, objbits=10,
-      bounds='shapes nin<=2,nout<=2 (thorough <=3, plus 4x1, 1x4), coinbase scriptSig lengths 1,2,3,100,101, size-boundary shapes (exactly 1,000,000 / 1,000,001 non-witness bytes); all field values symbolic; prevout hashes from {null,h1,h2}',
+      bounds='shapes nin<=2,nout<=2 (thorough <=3, plus 4x1, 1x4), coinbase scriptSig lengths 1,2,3,100,101, size-boundary shapes (exactly 1,000,000 / 1,000,001 non-witness bytes, and 1,000,000 non-witness bytes plus a witness); all field values symbolic; prevout hashes from {null,h1,h2}',
       assumptions=['prevout hash drawn from a 3-value domain including the null hash (index fully symbolic)']),
 ]
